@@ -25,7 +25,7 @@ def collect_assigned_words(word_iterator, lead_word):
         elif word.quote_token is not None or (
             last_word.quote_token is None and last_word.value == "\\"
         ):
-            if not have_comment:
+            if not have_comment and (word.quote_token is not None or word.value != "\\"):
                 result.append(word)
         elif word.line_number != last_word.line_number:
             word_iterator.backup()
